@@ -15,6 +15,7 @@ import (
 
 	"github.com/shopspring/decimal"
 	"github.com/verily-src/fhirpath-go/fhirpath"
+	"github.com/verily-src/fhirpath-go/fhirpath/compopts"
 	"github.com/verily-src/fhirpath-go/fhirpath/evalopts"
 	"github.com/verily-src/fhirpath-go/fhirpath/system"
 	"github.com/verily-src/fhirpath-go/internal/fhir"
@@ -284,6 +285,18 @@ func (g *evGen) strExpr(d int) string {
 		g.note("concat-empty")
 		return g.wrap(g.strExpr(d-1) + " & " + Pick(g.r, []string{"{}", "%e", "%s.where(false)"}))
 	case 8:
+		if g.r.Intn(3) == 0 {
+			g.note("join")
+			switch g.r.Intn(4) {
+			case 0:
+				return g.coll("str", d-1) + ".join()"
+			case 1:
+				return g.coll("str", d-1) + ".join(" + g.strExpr(d-1) + ")"
+			case 2:
+				return g.coll("", d-1) + ".join(" + Pick(g.r, []string{"', '", "''", "%e", "%s", "1", "'é'"}) + ")"
+			}
+			return g.strExpr(d-1) + ".toChars().join(" + Pick(g.r, []string{"'-'", "''", "', '"}) + ")"
+		}
 		g.note("upper-lower")
 		if g.r.Intn(4) == 0 {
 			return g.anyScalar(d-1) + Pick(g.r, []string{".upper()", ".lower()"})
@@ -397,6 +410,8 @@ var evOdd = []string{
 	"1.5.round(%e)", "1.5.round(%i)", "1.5.round('a')", "1.5.round(1.0)", "1.5.round(%unknown)", "%e.round(%unknown)", "(1 'mg').round()", "(10 / 3).round(3)", "(2 / 3).round(16)", "(2 / 3).round(15)", "0.5.round()", "0.49999.round()", "1.005.round(2)", "99999999999.5.round()", "1.5.round(1, 2)", "1.round().toString()", "(1.0 * 1.0).round(1).toString()",
 	"now()", "today()", "timeOfDay()", "now() = now()", "today() = today()", "timeOfDay() = timeOfDay()", "now().toDate() = today()", "now().toString()", "today().toString()", "timeOfDay().toString()", "now() > today()", "now() >= today()", "today() + 1 day > today()", "now() + 1 month", "today() - 1 year", "timeOfDay() + 1 hour",
 	"%e.now()", "%i.today()", "%i.select(now())", "%i.where(today() = today())", "now(1)", "today({})", "now().toTime()", "now() is DateTime", "today() is Date", "timeOfDay() is Time", "now().toDateTime() = now()", "%t.select($this < today())", "%dt.select($this < now())", "%tm.select($this < timeOfDay())", "now().count()", "iif(now() = now(), 1, 2)",
+	"%s.join()", "%s.join(', ')", "%s.join('')", "%e.join()", "%e.join(',')", "%e.join(%unknown)", "%i.join()", "%m.join(',')", "'a'.join()", "'abc'.toChars().join('-')", "'héllo'.toChars().join('')", "%s.join(%e)", "%s.join(%s)", "%s.join(1)", "%s.join(',', ';')",
+	"%s.join(', ').length()", "%s.select($this.toChars().join('.'))", "%s2.join('x') = %s2.first()", "%s.tail().join('|')", "%s.join({})", "%s.where($this.length() > 1).join('+')", "%s.join('\\n')", "('a' & 'b').toChars().join()", "1.toString().toChars().join(',')",
 	"@2020 + 1", "1 + @2020", "@2020 + @2021", "@2020 * 2 days", "@2020 / 0", "2 days + @2020", "@2020 - @2019", "@T10 + 1 day", "@T23:30 + 1 hour", "@T00:30 - 1 hour", "@T10 + 90 minutes", "@T10:30 + 30 seconds",
 	"@2020-01-31 + 1 month", "@2020-02-29 + 1 year", "@2020-02-29 - 4 years", "@2020-02-29 + 100 years", "@2020-03-31 - 1 month", "@2020 + 11 months", "@2020 + 12 months", "@2020-01 + 45 days", "@2020-01-01 + 1 hour", "@2020-01-01 + 1.5 days", "@2020-01-01 + 1 'mg'", "@2020-01-01 + 1 'd'",
 	"@2020-01-31T10:00:00+05:30 + 1 month", "@2019-12-31T23:30:00-03:30 + 1 hour", "@2020-02-29T10:30 + 36 hours", "@2020-02-29T10 + 90 minutes", "@2020T + 1 day", "@2020-02-29T10:30:00 + 500 milliseconds", "@2020-02-29T10:30:00.000 + 1 millisecond", "@2020-02-29T10:30:00Z - 1 second",
@@ -555,8 +570,17 @@ func (g *evGen) newEnv() {
 }
 
 func (g *evGen) run(c *Ctx, src, envLine string, opts []fhirpath.EvaluateOption) {
+	g.runWith(c, "ev", src, envLine, opts)
+	// programs that use the experimental table's function — and one in sixteen of the others — also under
+	// WithExperimentalFuncs() (`evx` lines: the model compiles against the table with the experimental entries added)
+	if strings.Contains(src, "join") || g.r.Intn(16) == 0 {
+		g.runWith(c, "evx", src, envLine, opts, compopts.WithExperimentalFuncs())
+	}
+}
+
+func (g *evGen) runWith(c *Ctx, kind, src, envLine string, opts []fhirpath.EvaluateOption, copts ...fhirpath.CompileOption) {
 	o := safeEval(func() (system.Collection, error) {
-		e, err := fhirpath.Compile(src)
+		e, err := fhirpath.Compile(src, copts...)
 		if err != nil {
 			return nil, fmt.Errorf("compile: %w", err)
 		}
@@ -575,7 +599,7 @@ func (g *evGen) run(c *Ctx, src, envLine string, opts []fhirpath.EvaluateOption)
 	} else {
 		c.Count("ev:value")
 	}
-	c.Emit("ev "+hexs(src)+" "+envLine, out, strings.HasPrefix(out, "ok:[") && out != "ok:[]")
+	c.Emit(kind+" "+hexs(src)+" "+envLine, out, strings.HasPrefix(out, "ok:[") && out != "ok:[]")
 }
 
 // evStream emits n generated programs (plus the fixed list) as `ev` lines.
